@@ -1035,6 +1035,7 @@ impl Machine {
             }
             IndexPtrTag::DynamicIndex => {
                 self.machine_st.dynamic_mode = FirstOrNext::First;
+                self.machine_st.cc = self.machine_st.global_clock;
                 self.machine_st.call_at_index(arity, compiled_tl_index);
             }
             IndexPtrTag::Index => {
@@ -1058,6 +1059,7 @@ impl Machine {
             }
             IndexPtrTag::DynamicIndex => {
                 self.machine_st.dynamic_mode = FirstOrNext::First;
+                self.machine_st.cc = self.machine_st.global_clock;
                 self.machine_st.execute_at_index(arity, compiled_tl_index);
             }
             IndexPtrTag::Index => self.machine_st.execute_at_index(arity, compiled_tl_index),
